@@ -230,6 +230,9 @@ func execResp(f []string) string {
 }
 
 func exec(op string) string {
+	if strings.HasPrefix(op, "rtb ") {
+		return execRTB(op)
+	}
 	f := strings.Fields(op)
 	if len(f) == 0 {
 		return "bad-op"
@@ -364,38 +367,42 @@ func rtOracle(root, path, host string, u *url.URL) []string {
 
 func hexs(s string) string { return vh.Hex([]byte(s)) }
 
-func execRT(f []string) string {
+func execRT(f []string) string { return startRT(f)() }
+
+// startRT performs the round trip and returns a closure that reads the body and renders the result later (rtb batches)
+func startRT(f []string) func() string {
+	fixed := func(s string) func() string { return func() string { return s } }
 	if len(f) == 18 {
 		f = append(f, "-")
 	}
 	if len(f) != 19 {
-		return "bad-op"
+		return fixed("bad-op")
 	}
 	reply := cannedReply()
 	if f[18] != "-" {
 		var rok bool
 		if reply, rok = unrle(f[18]); !rok {
-			return "bad-op"
+			return fixed("bad-op")
 		}
 	}
 	var sv [18]string
 	for _, i := range []int{1, 2, 3, 4, 5, 6, 7, 9} {
 		s, ok := unhexS(f[i])
 		if !ok {
-			return "bad-op"
+			return fixed("bad-op")
 		}
 		sv[i] = s
 	}
 	cl, err := strconv.ParseInt(f[8], 10, 64)
 	if err != nil {
-		return "bad-op"
+		return fixed("bad-op")
 	}
 	env := map[string]string{}
 	if f[10] != "-" {
 		for _, kv := range strings.Split(f[10], ",") {
 			p := strings.Split(kv, "=")
 			if len(p) != 2 {
-				return "bad-op"
+				return fixed("bad-op")
 			}
 			k, _ := unhexS(p[0])
 			v, _ := unhexS(p[1])
@@ -407,7 +414,7 @@ func execRT(f []string) string {
 		for _, kv := range strings.Split(f[11], ",") {
 			p := strings.Split(kv, ":")
 			if len(p) != 2 {
-				return "bad-op"
+				return fixed("bad-op")
 			}
 			k, _ := unhexS(p[0])
 			for _, hv := range strings.Split(p[1], "|") {
@@ -418,14 +425,14 @@ func execRT(f []string) string {
 	}
 	body, ok := unrle(f[12])
 	if !ok {
-		return "bad-op"
+		return fixed("bad-op")
 	}
 	rtInit()
 	u := &url.URL{Scheme: sv[7], Host: rtLn.Addr().String(), Path: sv[4], RawQuery: sv[5]}
 	or := rtOracle(sv[9], sv[4], sv[3], u)
 	for i := range or {
 		if or[i] != f[13+i] {
-			return "bad-oracle"
+			return fixed("bad-oracle")
 		}
 	}
 	req := &bfe_http.Request{Method: sv[1], URL: u, Proto: sv[6], Header: hdr, Body: ioutil.NopCloser(&chunkReader{b: body, n: 4096}),
@@ -438,10 +445,27 @@ func execRT(f []string) string {
 	resp, rerr := tr.RoundTrip(req)
 	got := <-rtCh
 	if got == nil {
-		return "err:responder"
+		return fixed("err:responder")
 	}
-	return rle(got) + " " + dumpResp(resp, rerr)
+	gots := rle(got)
+	return func() string { return gots + " " + dumpResp(resp, rerr) }
 }
+
+// op `rtb <rt op>;<rt op>;...`: all round trips first (responses held, bodies unread), then the responses are rendered in
+// REVERSE order; result = the single results in op order joined by `#`
+func execRTB(op string) string {
+	subs := strings.Split(strings.TrimPrefix(op, "rtb "), ";")
+	lates := make([]func() string, len(subs))
+	for i, s := range subs {
+		lates[i] = startRT(strings.Fields(s))
+	}
+	out := make([]string, len(subs))
+	for i := len(subs) - 1; i >= 0; i-- {
+		out[i] = lates[i]()
+	}
+	return strings.Join(out, "#")
+}
+
 
 // ---- rd: streamReader.Read call by call (the (n, err) contract), over a scripted connection
 //
@@ -1073,8 +1097,14 @@ func gen(r *vh.Rand) string {
 	switch r.Intn(12) {
 	case 0, 1, 2, 3:
 		return genReq(r)
-	case 4, 5, 6:
+	case 4, 5:
 		return genRT(r)
+	case 6:
+		var subs []string
+		for i, n := 0, r.Range(2, 3); i < n; i++ {
+			subs = append(subs, genRT(r))
+		}
+		return "rtb " + strings.Join(subs, ";")
 	case 7, 8:
 		return genRd(r)
 	case 9:
